@@ -237,7 +237,7 @@ func c09Configs(tier string) []c09Config {
 	nws := len(c09Workspaces())
 	for w := 0; w < nws; w++ {
 		for _, cpu := range []int{1, 2} {
-			for r := uint64(0); r < 8; r++ {
+			for r := uint64(0); r < 9; r++ {
 				// synchronisation-level schedules: every schedule with <=1 deviation for each map offset;
 				// <=2 deviations at offset 0 (quick) / at every offset (thorough)
 				b := 1
@@ -384,7 +384,7 @@ func init() {
 		ID:        "C09",
 		Technique: "stateless schedule exploration of the real server under a controlled runtime (iterative context bounding over goroutine start, channel, reflect.Select, mutex, WaitGroup and shared-object method-entry points) crossed with the pool width and every start offset of Go's map iteration; all executions of a workspace must give identical observables",
 		Rule: "closed systems: 10 small workspaces (a global that is a function in one file and a number in another, completed and resolved from a third, a watched-files batch naming a changed and an unchanged file, a table with more members than the hover preview shows, a directory reachable under three names through symbolic links, duplicate global function, same-base-name modules, files that look at each other during the first pass through a type-2 import frame and an enum block, a global used in three files, symbols sharing a prefix, class annotations across files); each is started (directory scan, first/second/third pass pools), files are opened and definition/hover/references/completion/symbol queries are asked; " +
-			"explored: every schedule with <=1 deviation from the default schedule at synchronisation points for NumCPU in {1,2} x all 8 map-iteration start offsets (<=2 deviations at offset 0; thorough: at every offset), plus method-entry granularity with <=1 deviation at offsets {0,1} (thorough: <=2 at offset 0); oracle: the normalised observables equal those of the canonical execution (1 CPU, offset 0, default schedule). " +
+			"explored: every schedule with <=1 deviation from the default schedule at synchronisation points for NumCPU in {1,2} x 9 map-order values (the canonical insertion order and, for every map, each of its 8 start offsets once) (<=2 deviations at offset 0; thorough: at every offset), plus method-entry granularity with <=1 deviation at offsets {0,1} (thorough: <=2 at offset 0); oracle: the normalised observables equal those of the canonical execution (1 CPU, offset 0, default schedule). " +
 			"states = completed executions; transitions = scheduling decisions; non-trivial = configurations with more than one outcome",
 		Assumptions: []string{
 			"the controlled runtime owns goroutine creation, channel operations, reflect.Select, sync.Mutex/WaitGroup, runtime.NumCPU, time.Now, the start offset of every map iteration (runtime overlay) and the order in which whole-directory reads deliver their entries (os overlay: natural, reversed, rotated by 1 and 2; functions that sort afterwards are unaffected by construction)",
